@@ -991,6 +991,10 @@ where
             }
         };
 
+        #[cfg(mini_moka_verif)]
+        if !skipped_nodes.is_empty() {
+            self.verif_emit("admit.skipped", None, 0, skipped_nodes.len() as u64, 0);
+        }
         // Move the skipped nodes to the back of the deque. We do not unlink (drop)
         // them because ValueEntries in the write op queue should be pointing them.
         for node in skipped_nodes {
@@ -1238,6 +1242,8 @@ where
             // invalidated ValueEntry (which should be still in the write op
             // queue) has a pointer to this node, move the node to the back of
             // the deque instead of popping (dropping) it.
+            #[cfg(mini_moka_verif)]
+            self.verif_emit("skip.absent", Some(key), 0, 0, 0);
             deq.move_front_to_back();
             true
         }
@@ -1296,6 +1302,8 @@ where
                 // invalidated ValueEntry (which should be still in the write op
                 // queue) has a pointer to this node, move the node to the back of
                 // the deque instead of popping (dropping) it.
+                #[cfg(mini_moka_verif)]
+                self.verif_emit("skip.absent", Some(key), 0, 1, 0);
                 deqs.write_order.move_front_to_back();
             }
         }
